@@ -20,6 +20,10 @@ func genC04(t *rapid.T) Case {
 	c.Progs = drawProgs(t, n, 4, []OpWeights{allOps}, hs, c.Cfg.Exact)
 	c.Sched = drawSched(t, n)
 	c.YieldOnWrite = rapid.IntRange(0, 3).Draw(t, "yieldOnWrite") == 3
+	if rapid.IntRange(0, 7).Draw(t, "cancelFamily") == 5 {
+		// transactions that cancel each other: compactions with an empty result, stacks that become empty
+		cancelFamily(t, &c, hs)
+	}
 	return c
 }
 
